@@ -156,7 +156,8 @@ def eval_cells(points, via):
         if via == 'cell':
             cells[f'A{r}'] = to_number(x)
             cells[f'B{r}'] = n
-            formulas.append(formula_for(fn, f'A{r}', f'B{r}'))
+            # an even run of minus signs in front of the operand leaves the number what it is
+            formulas.append(formula_for(fn, {1: '--', 3: '- -', 5: '+--'}.get(r % 7, '') + f'A{r}', f'B{r}'))
         else:
             a = x
             if r % 3 == 0:
@@ -169,6 +170,8 @@ def eval_cells(points, via):
                     e10 = exp_ + (len(ds) - len(ds2)) + len(ds2) - 1
                     a = ('-' if sign_ else '') + ds2[0] + ('.' + ds2[1:] if len(ds2) > 1 else '') + f'e{e10}'
                     assert Decimal(a) == Decimal(x), (a, x)
+            if r % 7 == 1:
+                a = '--' + a
             formulas.append(formula_for(fn, a, str(n)))
     return wbk.eval_formulas([{'title': 'S', 'cells': cells}], formulas, first_col=4, ncols=6)
 
